@@ -458,7 +458,8 @@ class CachedFcn(UserFcn):
             and set(kwds.keys()) == set(self.lastKwds.keys())
             and all(self._same(kwds[k], self.lastKwds[k]) for k in kwds)
         ):
-            return self.lastReturn
+            # hand out a copy: the caller may go on to modify the result in place
+            return self._snapshot(self.lastReturn)
         # snapshot the arguments before the call (the function may itself modify them) ...
         lastArgs = self._snapshot(args)
         lastKwds = self._snapshot(kwds)
@@ -466,7 +467,11 @@ class CachedFcn(UserFcn):
         ret = super().__call__(*args, **kwds)
         self.lastArgs = lastArgs
         self.lastKwds = lastKwds
-        self.lastReturn = ret
+        # ... and keep a copy of the result too: it may be (a view of) the caller's own array, or be modified later
+        self.lastReturn = self._snapshot(ret)
+        if self.lastReturn is CachedFcn._uncopyable:
+            # a result that cannot be copied is not cached at all
+            self.lastArgs = (CachedFcn._uncopyable,) * len(args)
         return ret
 
     def __repr__(self):
